@@ -75,7 +75,10 @@ Definition parse_optN (t : bytes) : option (option N) :=
 Definition parse_event (t : bytes) : option event :=
   match t with
   | [105] => Some Interrupted
-  | [102] => Some Fail
+  | [102] => Some Fail   (* f: ErrorKind::Other *)
+  | [117] => Some Fail   (* u: UnexpectedEof *)
+  | [114] => Some Fail   (* r: ConnectionReset *)
+  | [119] => Some Fail   (* w: WouldBlock *)
   | 99 :: r => match hex_dec r with Some b => Some (Chunk b) | None => None end
   | _ => None
   end.
